@@ -98,6 +98,7 @@ class AbstractGraph:
         g.attrs["call_function"] = _Builtin("Graph.call_function", lambda it2, a, k, nd: self._call_function(a, k, nd))
         g.attrs["inserting_after"] = _Builtin("Graph.inserting_after", lambda it2, a, k, nd: self._inserting(a[0] if a else k.get("n"), after=True))
         g.attrs["inserting_before"] = _Builtin("Graph.inserting_before", lambda it2, a, k, nd: self._inserting(a[0] if a else k.get("n"), after=False))
+        g.attrs["eliminate_dead_code"] = _Builtin("Graph.eliminate_dead_code", lambda it2, a, k, nd: self._dce(nd))
         g.attrs["_abstract_graph"] = self
 
     # ---- construction
@@ -152,6 +153,19 @@ class AbstractGraph:
         self.erased.append(n)
         self.it.log("fx-erase", nd, fxnode=n)
         return None
+
+    def _dce(self, nd: Any) -> Any:
+        """torch.fx eliminate_dead_code: drop nodes without users (placeholders / output kept), repeatedly."""
+        changed = False
+        for n in list(reversed(self.nodes)):
+            if n.attrs["op"] in ("placeholder", "output"):
+                continue
+            if not self.users_of(n):
+                self.nodes = [x for x in self.nodes if x is not n]
+                self.erased.append(n)
+                self.it.log("fx-erase", nd, fxnode=n, dce=True)
+                changed = True
+        return changed
 
     def _lint(self, nd: Any) -> Any:
         self.linted += 1
